@@ -36,7 +36,7 @@ VECTORS = [("Hello, World!", "!;a-^H s^3a:)"),
 
 
 def shards(tier, seed):
-    out = [{"kind": "table"}] + [{"kind": "runs", "special": sp} for sp in (0xFF, 0x00, 0x7E, 0x21, 0x22, 0x50)]
+    out = [{"kind": "table"}, {"kind": "threads", "rounds": 3 if tier == "quick" else 12}] + [{"kind": "runs", "special": sp} for sp in (0xFF, 0x00, 0x7E, 0x21, 0x22, 0x50)]
     if tier == "quick":
         out += [{"kind": "alpha", "maxlen": 3, "first": None}]
         out += [{"kind": "alpha", "maxlen": 4, "first": a} for a in (0x22, 0x7E)]
@@ -163,6 +163,42 @@ def run(shard, rec, tier, seed):
                 cnt += 1
         rec.case(None, n=cnt)
         rec.seen("alphabet_exhaustive", "len<=%d first=%s" % (shard["maxlen"], shard["first"]))
+    elif kind == "threads":
+        # the functions are pure transformations of the caller's own buffer: several threads, each with private
+        # buffers (odd and even lengths, long enough for a thread switch inside a call), all results compared
+        # with the reference.  The interpreter's switch interval is lowered for the duration.
+        import sys
+        import threading
+
+        old_iv = sys.getswitchinterval()
+        sys.setswitchinterval(1e-6)
+        bad = []
+        calls = [0]
+        try:
+            for rnd in range(shard["rounds"]):
+                def work(tid, rnd=rnd):
+                    r = random.Random("C08-thr-%d-%d" % (rnd, tid))
+                    for k in range(60):
+                        L = (2000 if (tid + k) % 2 else 2001) + r.randrange(0, 3) * 2
+                        x = bytes(r.randrange(0x20, 0x80) if r.random() < 0.8 else r.randrange(256) for _ in range(L))
+                        for f, reff in ((mon.enc, ref.encode), (mon.dec, ref.decode)):
+                            b = bytearray(x)
+                            f(b)
+                            calls[0] += 1
+                            if bytes(b) != reff(x) and len(bad) < 3:
+                                bad.append((f.__name__, tid, L))
+                ts = [threading.Thread(target=work, args=(i,)) for i in range(4)]
+                for th in ts:
+                    th.start()
+                for th in ts:
+                    th.join()
+        finally:
+            sys.setswitchinterval(old_iv)
+        rec.count("calls-from-concurrent-threads", calls[0])
+        rec.case(("threads", shard["rounds"]), n=calls[0])
+        cnt = calls[0] // 2
+        for name, tid, L in bad:
+            rec.violation("table", "%s on a private %d-byte buffer gave a wrong result while other threads were encoding / decoding their own buffers (thread %d)" % (name, L, tid), {"threads": 4, "length": L})
     elif kind == "runs":
         # padded shapes: a run of one special byte (every length 0..70 and around 128 / 256 / 1024 / 4096) before,
         # after, around and inside payloads of length 0..9 - what a fixed-length padded field looks like
